@@ -216,3 +216,73 @@ func init() {
 		Assumptions:    []string{"grammar don't-care regions are skipped (see C10)", "regexp.MatchString on the (concrete) method is executed natively"},
 	}
 }
+
+func init() {
+	props["C07"] = &PropSpec{
+		ID: "C07",
+		Jobs: func(tier string) []*Job {
+			nsets, maxLh, maxLp := nHandSets+23, 2, 5
+			if tier == "thorough" {
+				nsets, maxLh, maxLp = nHandSets+133, 3, 7
+			}
+			var js []*Job
+			for s := 0; s < nsets; s++ {
+				if s == 16 {
+					continue // fan-out set: covered by C02/C01 (61 routes x 9 histories is slow to build)
+				}
+				for h := 0; h < 9; h++ {
+					for lh := 0; lh <= maxLh; lh++ {
+						for lp := 1; lp <= maxLp; lp++ {
+							js = append(js, &Job{Harness: "C07Pair", Params: map[string]int{"set": s, "hist": h, "lh": lh, "lp": lp}})
+						}
+					}
+				}
+			}
+			return js
+		},
+		Bounds: func(tier string) string {
+			if tier == "thorough" {
+				return "149 corpus route sets (routes alternately GET/POST) x 9 history shapes (reverse, interleaved, extras inserted+deleted after / before, update in place, delete+reinsert each, truncate+refill in one txn, aborted txn full of writes, delete all + reinsert reversed) x request method in {GET,POST,DELETE,OPTIONS} x every Host of 0..3 bytes x every path of 1..7 bytes; 405 and auto-OPTIONS enabled"
+			}
+			return "39 corpus route sets (routes alternately GET/POST) x 9 history shapes x request method in {GET,POST,DELETE,OPTIONS} x every Host of 0..2 bytes x every path of 1..5 bytes; 405 and auto-OPTIONS enabled"
+		},
+		RequiredCovers: []string{"both matched", "405 compared", "OPTIONS compared"},
+		Assumptions:    []string{"no external oracle: router A (canonical insertion order) versus router B (history); the absolute correctness of A is C01/C08/C11's obligation"},
+	}
+}
+
+func init() {
+	props["C11"] = &PropSpec{
+		ID: "C11",
+		Jobs: func(tier string) []*Job {
+			nsets, maxLh, maxLp := nHandSets+23, 2, 5
+			if tier == "thorough" {
+				nsets, maxLh, maxLp = nHandSets+103, 3, 7
+			}
+			var js []*Job
+			for s := 0; s < nsets; s++ {
+				if s == 16 {
+					continue
+				}
+				for o := 0; o < 4; o++ {
+					for lh := 0; lh <= maxLh; lh++ {
+						for lp := 0; lp <= maxLp; lp++ {
+							if lp == 0 && lh > 0 {
+								continue
+							}
+							js = append(js, &Job{Harness: "C11Serve", Params: map[string]int{"set": s, "opts": o, "lh": lh, "lp": lp}})
+						}
+					}
+				}
+			}
+			return js
+		},
+		Bounds: func(tier string) string {
+			if tier == "thorough" {
+				return "119 corpus route sets (routes spread over GET/POST/FOO/OPTIONS, every third route ignoring trailing slashes) x the 4 combinations of method-not-allowed and auto-OPTIONS x request method in {GET,POST,FOO,OPTIONS,DELETE} x every Host of 0..3 bytes x every path of 1..7 bytes and the target '*'"
+			}
+			return "39 corpus route sets (routes spread over GET/POST/FOO/OPTIONS, every third route ignoring trailing slashes) x the 4 combinations of method-not-allowed and auto-OPTIONS x request method in {GET,POST,FOO,OPTIONS,DELETE} x every Host of 0..2 bytes x every path of 1..5 bytes and the target '*'"
+		},
+		RequiredCovers: []string{"404", "405", "OPTIONS", "OPTIONS *", "served by a route"},
+	}
+}
